@@ -998,6 +998,28 @@ def check_mask_regroup(prog, rep, f):
             rel.append(c)
     if not rel:
         return
+    # the retained-index vector must come from the mask the fields were subset with
+    applied = set()
+    for n in walk_no_nested(f.node):
+        if isinstance(n, ast.Assign) and isinstance(n.value, ast.Subscript) and isinstance(n.targets[0], ast.Name):
+            sl = n.value.slice
+            last = sl.elts[-1] if isinstance(sl, ast.Tuple) else sl
+            base = n.value.value
+            if isinstance(last, ast.Name) and isinstance(base, ast.Name) and base.id == n.targets[0].id and (base.id.startswith("vrnt_") or base.id == "mat"):
+                applied.add(last.id)
+    counted = set()
+    for n in walk_no_nested(f.node):
+        if isinstance(n, ast.Call) and isinstance(n.func, ast.Attribute) and n.func.attr == "flatnonzero" and n.args and isinstance(n.args[0], ast.Name):
+            counted.add(n.args[0].id)
+    if len(applied) == 1 and counted:
+        if counted == applied:
+            rep.ok("R7-ctor", construct + "#recount-mask", "group metadata recounted from %s, the mask the data and labels were subset with" % sorted(applied)[0])
+        else:
+            rep.violate("R7-ctor", construct, "data and labels are subset with %s but the chromosome groups are recounted from %s: the reported partition does not describe "
+                        "the retained variants whenever the two differ (e.g. an inverted mask)" % (sorted(applied)[0], sorted(counted)[0]), where(f),
+                        "numpy.flatnonzero(%s)" % sorted(applied)[0], "numpy.flatnonzero(%s)" % sorted(counted)[0])
+    elif len(applied) > 1:
+        rep.violate("R7-ctor", construct, "fields are subset with different masks: %s" % sorted(applied), where(f))
     for c in rel:
         l, r, op = c.left, c.comparators[0], c.ops[0]
         ln = l.id if isinstance(l, ast.Name) else None
